@@ -80,7 +80,9 @@ def main():
         tech, text, note, ref = CHECKS[pid]
         tech += ('; plus, for every property, exhaustive depth-2 histories (vmc.hist): batches of picked cases of each of the twenty '
                  'drivers, and every ill-formed variant of a sentinel, followed by sentinel cases of this property in a forked child; '
-                 'constraint graphs with shared Node objects; object-reuse histories of readers, writers and operations')
+                 'constraint graphs with shared Node objects and attribute values with shared containers; three alternative '
+                 'construction orders of every sentinel model; object-reuse histories of readers, writers and operations; for the '
+                 'operations (C13-C15, C19) every schedule of two overlapping executions with one preemption (vmc.sched)')
         text += (' Histories: the sentinel cases are judged before and after every prefix (verdict and recorded outputs must not change); '
                  'see DESIGN.md 7.3b.')
         checks.append({
